@@ -3,7 +3,7 @@ import re
 
 from gsa.cfg import Fn, S, is_call, is_assign, walk, lit
 from gsa import lock as L
-from gsa.layout import Poly
+from gsa.layout import Poly, Interp
 from gsa import rules as R
 from . import wl_locks
 
@@ -127,8 +127,9 @@ def bump_fit(ctx, fx, fn, cls, bumpe):
 
 def bump(ctx, fx):
     ctx.rule("C09.bump.align-bump-order",
-             "bump allocate(): the request is rounded up by (size + sizeof(double) - 1) & ~(sizeof(double) - 1); the returned "
-             "pointer is head + offset computed before `offset += aligned`; the capacity test adds the same aligned value")
+             "bump allocate(): the request is rounded up by (size + sizeof(double) - 1) & ~(sizeof(double) - 1); by symbolic "
+             "interpretation of every path that bumps, the returned pointer is head + (offset before the bump) and the offset "
+             "afterwards is offset + aligned size, bumped exactly once (the capacity comparison is rule C09.bump.fit)")
     ctx.rule("C09.bump.refill", "refill(): the new block is linked (BP->next = head) before head = BP and the offset restarts "
              "after the block header (sizeof(Block))")
     ctx.rule("C09.bump.partial-clamp", "allocate(size, allocated): after a refill the remaining space is re-read and the aligned "
@@ -156,27 +157,27 @@ def bump(ctx, fx):
             for _, e in bumps:
                 if e.get("rp") != "alignedSize":
                     det.append("offset bumped by %s" % e.get("rp"))
-            take = lambda e: e.get("k") == "assign" and e.get("lp") == "retval" and e.get("op") == "+=" and e.get("rp") == "this->offset"
-            if not any(True for _ in fn.events(take)):
-                det.append("returned pointer is not head + offset")
-            if fn.reaches_without(bumpe, take):
-                det.append("offset bumped before the returned pointer was computed")
-            base = [e for _, e in fn.events(lambda e: e.get("k") == "decl" and e.get("n") == "retval")]
-            if not base or base[0].get("ip") != "this->head":
-                det.append("returned pointer does not start at head")
-            # capacity tests mention offset + alignedSize
-            tests = []
-            for b in fn.blocks.values():
-                t = b.get("term") or {}
-                if "cond" in t:
-                    for n in walk(t["cond"]):
-                        if n.get("k") == "bin" and n.get("op") == ">" and "offset" in S(n.get("l")):
-                            tests.append(S(n))
-            if not tests or any(not x.startswith("((this->offset + alignedSize) > ") for x in tests):
-                det.append("capacity test(s): %s" % sorted(set(tests)))
-            rets = {S(e.get("e")) for _, e in fn.events(lambda e: e["k"] == "ret")}
-            if cls.endswith("BumpHeap") and rets != {"retval"}:
-                det.append("returns %s" % sorted(rets))
+            # Semantics, not spelling: interpret the function with head = H, offset = O, alignedSize = A (byte polynomials,
+            # pointer arithmetic scaled): on every path that bumps, the pointer returned is H + O with O the offset BEFORE
+            # the bump, and the offset afterwards is O + A. `char* r = (char*)head; r += offset;` and
+            # `char* r = (char*)head + offset;` are the same thing.
+            H, O, A = Poly.sym("H"), Poly.sym("O"), Poly.sym("A")
+            it = Interp(fn, {"this->head": H, "this->offset": O, "alignedSize": A}, {}, lambda e: e.get("k") == "ret", max_paths=64)
+            npaths = 0
+            for st, obs in it.run():
+                off = st.get("this->offset")
+                if off is None or off.p == O:
+                    continue            # this path did not bump (malloc fall-back, abort)
+                npaths += 1
+                al = st.get("alignedSize")
+                if off.p != O + (al.p if al is not None else A):
+                    det.append("a path leaves offset = %s, expected offset + aligned size" % off.p)
+                for o in obs:
+                    v = o.get("value")
+                    if v is None or v.p != H + O:
+                        det.append("a path that bumps returns %s, expected head + the offset before the bump" % (v.p if v is not None else "?"))
+            if bumps and not npaths:
+                det.append("no returning path bumps the offset")
             # bump exactly once on every returning path that hands out from the block
             for p, _ in bumps:
                 h, _ = fn.search([fn.after(p)], stop=bumpe)
@@ -413,27 +414,54 @@ def siblings(ctx, fx):
     if a and d:
         fa, fd = ctx.fn(a[0]), ctx.fn(d[0])
         det = []
+        # locals are found by what they hold, never by name: the class is the local defined as nextLog2(<size parameter>),
+        # the block size the local defined as 1 << <class>
+        cls_of, size_of = {}, {}
         for fn, f in ((fa, a[0]), (fd, d[0])):
             szp = f["params"][-1]["n"]
-            ll = fn.defs().get("ll")
-            size = fn.defs().get("size")
-            if ll is None or S(ll) != "this->nextLog2(%s)" % szp and S(ll) != "nextLog2(%s)" % szp:
-                det.append("%s: ll = %s" % (f["name"], S(ll) if ll else None))
-            if size is None or S(size) != "(1 << ll)":
-                det.append("%s: size = %s" % (f["name"], S(size) if size else None))
-        # free list class used on both sides is ll
-        pushd = [S(e.get("recv")) for _, e in fd.events(is_call(name="push_back"))]
-        if pushd != ["this->freeOffsets[ll]"]:
-            det.append("deallocOffset returns the offset to %s" % pushd)
-        idx = fa.defs().get("index")
-        idecl = [e for _, e in fa.events(lambda e: e.get("k") == "decl" and e.get("n") == "index")]
-        if not idecl or idecl[0].get("ip") != "ll":
-            det.append("allocOffset starts searching at class %s" % (idecl[0].get("ip") if idecl else None))
-        # rollback CAS expects offset + size
-        ex = fd.defs().get("expected")
-        exd = [e for _, e in fd.events(lambda e: e.get("k") == "decl" and e.get("n") == "expected")]
-        if not exd or exd[0].get("ip") != "offset + size":
-            det.append("rollback expects %s" % (exd[0].get("ip") if exd else None))
+            defs = fn.defs()
+            cl = [n for n, v in defs.items() if v is not None and S(v) in ("this->nextLog2(%s)" % szp, "nextLog2(%s)" % szp)]
+            if len(cl) != 1:
+                det.append("%s: no single local holds nextLog2(%s): %s" % (f["name"], szp, cl))
+                continue
+            cls_of[f["name"]] = cl[0]
+            sz = [n for n, v in defs.items() if v is not None and S(v) == "(1 << %s)" % cl[0]]
+            if len(sz) != 1:
+                det.append("%s: no single local holds 1 << %s: %s" % (f["name"], cl[0], sz))
+                continue
+            size_of[f["name"]] = sz[0]
+        if len(cls_of) == 2 and len(size_of) == 2:
+            cd, ca = cls_of["deallocOffset"], cls_of["allocOffset"]
+            # the free list an offset is returned to is the one of its class
+            pushd = [S(e.get("recv")) for _, e in fd.events(is_call(name="push_back"))]
+            if pushd != ["this->freeOffsets[%s]" % cd]:
+                det.append("deallocOffset returns the offset to %s" % pushd)
+            # the search for a free offset starts at the class of the request: the first free-list access of allocOffset
+            # is indexed by the class local or by a local initialised from it
+            firsts = [S(e.get("recv")) for _, e in fa.events(is_call(name="empty"))]
+            def holds_class(ix):
+                if ix == ca:
+                    return True
+                dd = [e for _, e in fa.events(lambda e: e.get("k") == "decl" and e.get("n") == ix)]
+                return bool(dd) and (dd[0].get("ip") or "").strip() == ca
+            m = re.match(r"this->freeOffsets\[(\w+)\]$", firsts[0]) if firsts else None
+            if not m or not holds_class(m.group(1)):
+                det.append("allocOffset starts searching at %s" % (firsts[0] if firsts else None))
+            # rollback CAS expects offset + size
+            offp = d[0]["params"][0]["n"]
+            cas = [e for _, e in fd.events(lambda e: e.get("k") == "atomic" and e.get("kind") == "cas")]
+            exn = None
+            for e in cas:
+                ar = e.get("a") or []
+                if ar:
+                    exn = S(ar[0])
+            exv = fd.defs().get(exn) if exn else None
+            szd = size_of["deallocOffset"]
+            if exv is None or S(exv) not in ("(%s + %s)" % (offp, szd), "(%s + %s)" % (szd, offp)):
+                det.append("rollback expects %s = %s" % (exn, S(exv) if exv is not None else None))
+            for e in cas:
+                if len(e.get("a") or []) < 2 or S(e["a"][1]) != offp:
+                    det.append("rollback installs %s, expected the offset being returned" % (S(e["a"][1]) if len(e.get("a") or []) > 1 else None))
         ctx.ob("C09.sibling.size-class", PB + "allocOffset", not det, "; ".join(det), fa.loc(), "offsets", fnkey=a[0]["key"])
     # AddHeader
     ah = [f for f in fx.functions if f.get("cls") == RT + "AddHeader" and f["kind"] == "inst"]
